@@ -1,5 +1,6 @@
 import AsyncVerif.Proofs.AggTools
 import AsyncVerif.Proofs.KindFreeTools
+import AsyncVerif.Proofs.Awaitify
 import AsyncVerif.Impl.Aggregations
 /-!
 # C03 — async neutrality: sync and async arguments are interchangeable
@@ -120,5 +121,15 @@ private def wk : World :=
     calls := fun _ => 0, cons := .run 0 .exhaust, vis := [], rel := [] }
 example : Neutral (fun _ => SrcKind.iter) ∧ Neutral (fun _ => SrcKind.agen) := ⟨by intro s; simp, by intro s; simp⟩
 example : yields (Impl.filter (some 0) 0 9 (wk.withKinds fun _ => .agen)).2.vis = [.obj 1 1] := by rfl
+
+/-- **Callable flavours.** For every flavour (def, async def, partial(async def), callable object returning a
+    coroutine that fails inside the coroutine or at call time) and every sequence of invocations on one
+    `awaitify` wrapper — including a FIRST call that raises — `await awaitify(f)(*args)` evaluates to exactly
+    what the n-th invocation of `f` does; it never hands back an un-awaited coroutine. -/
+theorem C03_awaitify_transparent (fl : Awaitify.Flavour) (behs : List (Except Nat Nat)) :
+    Awaitify.run fl Awaitify.init behs = behs.map Awaitify.ofBeh :=
+  Awaitify.run_spec fl behs Awaitify.init (Awaitify.inv_init fl)
+
+example : Awaitify.run .objx Awaitify.init [.error 7, .ok 1, .ok 2] = [.exc 7, .val 1, .val 2] := by decide
 
 end AsyncVerif
